@@ -243,8 +243,10 @@ let process_trace header lines =
              if get "prefills" <> "-" then tag "prefill";
              (* C05, row system: placement variables only for placeable workers (checked on the real VAR lines by the diff);
                 the real solution must be feasible for the model's rows *)
-             if !impl_feasible = Some true && not w.solved_ok then
+             if !impl_feasible = Some true && not w.solved_ok then begin
                monitors := "M C05 FAIL solution-infeasible-for-model-rows" :: !monitors;
+               monitors := "M C15 FAIL solution-violates-model-rows the real solution is not a feasible point of the row system the model derives (cut / blocker / resource rows)" :: !monitors
+             end;
              (* C15 *)
              if w.optimal && ok then begin
                let invs = inversions i d in
